@@ -129,6 +129,10 @@ pub enum Alt {
     Extend { n: u32, fill: u8 },
     /// swap the two digests
     Md5Swap,
+    /// a whole digest field (0 = before, 1 = after) filled with one byte value ("no digest"
+    /// markers of other tools); with `also`: additionally one base byte (before) or the last
+    /// payload byte (after) is changed, so that the field is the only thing that could notice
+    Md5Fill { which: u8, fill: u8, also: bool },
     /// the patch is intact but one byte of the base file differs
     BaseByte { off: u32, op: u8 },
     /// the base file is cut or extended by `delta` bytes
@@ -179,6 +183,7 @@ impl Alt {
             Alt::Truncate { len } => format!("truncate:{}", if (*len as usize) < bp::HEADER_LEN { "in-header" } else { "in-payload" }),
             Alt::Extend { .. } => "extend".into(),
             Alt::Md5Swap => "md5-swap".into(),
+            Alt::Md5Fill { which, fill, also } => format!("md5-fill:{}:{fill:02x}{}", if *which == 0 { "before" } else { "after" }, if *also { "+data" } else { "" }),
             Alt::BaseByte { op, .. } => format!("base-byte:{}", OP_NAMES[(*op & 3) as usize]),
             Alt::BaseLen { delta } => format!("base-len:{}", if *delta < 0 { "shorter" } else { "longer" }),
         }
@@ -270,6 +275,22 @@ pub fn apply_alt(case: &PatchCase, b: &BuiltPatch, alt: &Alt) -> (Vec<u8>, Vec<u
             let (a, c) = (b.ptch.md5_before, b.ptch.md5_after);
             bytes[off::MD5_BEFORE..off::MD5_BEFORE + 16].copy_from_slice(&c);
             bytes[off::MD5_AFTER..off::MD5_AFTER + 16].copy_from_slice(&a);
+        }
+        Alt::Md5Fill { which, fill, also } => {
+            let o = if *which == 0 { off::MD5_BEFORE } else { off::MD5_AFTER };
+            if bytes.len() >= o + 16 {
+                bytes[o..o + 16].fill(*fill);
+            }
+            if *also {
+                if *which == 0 {
+                    if let Some(x) = base.last_mut() {
+                        *x ^= 0x20;
+                    }
+                } else if bytes.len() > off::PAYLOAD {
+                    let l = bytes.len() - 1;
+                    bytes[l] ^= 0x20;
+                }
+            }
         }
         Alt::BaseByte { off, op } => {
             if !base.is_empty() {
@@ -364,6 +385,13 @@ pub fn plan(case: &PatchCase, b: &BuiltPatch, payload_samples: usize, seed: u64)
         v.push(Alt::Extend { n, fill });
     }
     v.push(Alt::Md5Swap);
+    for which in 0..2u8 {
+        for fill in [0u8, 0xFF] {
+            for also in [false, true] {
+                v.push(Alt::Md5Fill { which, fill, also });
+            }
+        }
+    }
     if !b.base.is_empty() {
         for _ in 0..6 {
             v.push(Alt::BaseByte { off: next() as u32, op: (next() & 3) as u8 });
